@@ -226,11 +226,29 @@ fn check_hops(tag: &str, hops: &[Hop], agg: &HashMap<u8, Agg>, max_samples: usiz
 
 /// Does `entry` cover `f` (agrees at every known position of f and is at least as long)?
 fn covers(entry: &[FlowEntry], f: &[Option<IpAddr>]) -> bool {
-    entry.len() >= f.len() && f.iter().zip(entry).all(|(x, e)| match (x, e) { (Some(a), FlowEntry::Known(b)) => a == b, (Some(_), FlowEntry::Unknown) => false, (None, _) => true })
+    // every address the round saw is recorded at its position (positions at which the round saw nothing need no entry)
+    f.iter().enumerate().all(|(i, x)| match (x, entry.get(i)) { (Some(a), Some(FlowEntry::Known(b))) => a == b, (Some(_), _) => false, (None, _) => true })
 }
 
+/// The addresses a round saw, by POSITION ON THE PATH (ttl - the round's first ttl), independent of how the code builds its flow:
+/// a probe that was answered gives its host, a probe that was sent (or whose send failed) and got no answer gives "unknown";
+/// abandoned (skipped) slots duplicate the ttl of their re-issue and have no position of their own.  For rounds that are not of
+/// the shape the strategy publishes (consecutive ascending ttls) the positions are the indices among the probes put on the wire.
 fn round_flow(r: &RoundIn) -> Vec<Option<IpAddr>> {
-    r.probes.iter().filter_map(|p| match p { ProbeStatus::Awaited(_) => Some(None), ProbeStatus::Complete(c) => Some(Some(c.host)), _ => None }).take(usize::from(r.largest_ttl)).collect()
+    let placed: Vec<(u8, Option<IpAddr>)> = r.probes.iter().filter_map(|p| match p {
+        ProbeStatus::Awaited(a) => Some((a.ttl.0, None)),
+        ProbeStatus::Failed(f) => Some((f.ttl.0, None)),
+        ProbeStatus::Complete(c) => Some((c.ttl.0, Some(c.host))),
+        _ => None,
+    }).collect();
+    let shaped = placed.windows(2).all(|w| u16::from(w[1].0) == u16::from(w[0].0) + 1)
+        && (r.largest_ttl == 0 || placed.first().map_or(true, |x| x.0 <= r.largest_ttl));
+    if shaped {
+        // the hops of the round's path: ttl <= the path length the round reports
+        placed.iter().take_while(|x| x.0 <= r.largest_ttl).map(|x| x.1).collect()
+    } else {
+        placed.iter().map(|x| x.1).take(usize::from(r.largest_ttl)).collect()
+    }
 }
 
 /// the side condition under which the strategy produces rounds: ttl in 1..=254, largest_ttl 0 or >= the round's lowest ttl
